@@ -143,6 +143,10 @@ def build(cfg, W):
         def render_error(self, request, _error):
             raise RuntimeError('render_error is broken')
         attrs['render_error'] = render_error
+    elif cfg['re'] == 'raiseshttp':
+        def render_error(self, request, _error):
+            raise errors.NotAcceptable('the error renderer gives up')
+        attrs['render_error'] = render_error
     elif cfg['re'] == 'other':
         def render_error(self, request, _error):
             return errors.Gone('replaced by render_error')
@@ -171,6 +175,13 @@ def build(cfg, W):
     routes = [GET('/m', m_get), POST('/m', m_post), ('/t/<n:int>', typed), ('/t/<n:int>/<f:float>', typed)] + sib + [
               Route('/r/<beh>/<pos>/<n>', endpoint, render, middlewares=[mw]),
               Route('/n/<beh>/<pos>/<n>', endpoint, middlewares=[mw])]
+    if not attrs and cfg.get('sibling'):
+        # no custom error renderer: let the framework pick its default handler (as most applications do); re-raising is
+        # switched on the way Application.serve() does it.  Other applications' handlers must not be affected by that.
+        app = Application(routes, debug=(cfg['handler'] == 'contextual'))
+        if cfg['handler'] == 'reraise':
+            app.error_handler.reraise_uncaught = True
+        return app
     return Application(routes, error_handler=handler)
 
 
